@@ -1,5 +1,5 @@
 (** C16 — capitalisation fixes change only letter case and reach the policy. Pinned statements only. *)
-From Sq Require Import Base.Bytes Caps.Model Caps.Proofs.
+From Sq Require Import Base.Bytes Caps.Model Caps.Proofs Caps.Converge.
 
 (** Whatever the policy (consistent included), the option list and the memory, a reported fix
     changes only ASCII letter case: same length, same text once lower-cased, and a real change. *)
@@ -56,3 +56,55 @@ Theorem C16_consistent_single_case : forall n ig ts m out k,
   exists L, Forall2 (recased L) ts out.
 Proof. exact consistent_single_case. Qed.
 Print Assumptions C16_consistent_single_case.
+
+(** consistent with the basic option list (CP01, CP03, CP04: upper, lower, capitalise): after one
+    crawl over any token sequence, under any ignore list, a second crawl reports nothing and
+    changes nothing (crawls start from the empty memory). *)
+Theorem C16_basic_consistent_one_pass : forall ig ts out k,
+  pass Basic Consistent ig ts = (out, k) ->
+  pass Basic Consistent ig out = (out, 0).
+Proof. exact basic_consistent_one_pass. Qed.
+Print Assumptions C16_basic_consistent_one_pass.
+
+(** ... and the same from every memory a crawl can be in ([wf]: every option refuted, or the
+    latest case is the first possible one with the flags the refutation rules force), both
+    crawls starting from that memory. *)
+Theorem C16_basic_consistent_one_pass_from : forall ig ts m out k,
+  wf Basic m ->
+  pass_from Basic Consistent ig m ts = (out, k) ->
+  pass_from Basic Consistent ig m out = (out, 0).
+Proof. exact basic_consistent_one_pass_from. Qed.
+Print Assumptions C16_basic_consistent_one_pass_from.
+
+(** [wf] covers the empty memory and is kept by every step of a crawl, for both option lists. *)
+Theorem C16_wf_reachable : forall n ig,
+  wf n mem0 /\ forall ts m, wf n m -> wf n (mem_after n Consistent ig m ts).
+Proof. exact wf_invariant. Qed.
+Print Assumptions C16_wf_reachable.
+
+(** ... but not from an arbitrary memory (one no crawl produces): witness a, Cd from the memory
+    "upper and lower refuted, capitalise possible, latest case upper". *)
+Theorem C16_basic_one_pass_any_memory_refuted :
+  exists m ts, let out := fst (pass_from Basic Consistent [] m ts) in
+               snd (pass_from Basic Consistent [] m out) <> 0.
+Proof. exact basic_one_pass_any_memory_refuted. Qed.
+Print Assumptions C16_basic_one_pass_any_memory_refuted.
+
+(** consistent with the extended option list (CP02, CP05): the result of the second crawl is
+    stable -- a third crawl reports nothing and changes nothing (the fix loop crawls post-phase
+    rules three times). *)
+Theorem C16_extended_consistent_two_pass : forall ig ts,
+  let o1 := fst (pass Extended Consistent ig ts) in
+  let o2 := fst (pass Extended Consistent ig o1) in
+  pass Extended Consistent ig o2 = (o2, 0).
+Proof. exact extended_consistent_two_pass. Qed.
+Print Assumptions C16_extended_consistent_two_pass.
+
+(** ... for either option list and from every memory a crawl can be in. *)
+Theorem C16_consistent_two_pass_from : forall n ig ts m o1 k1 o2 k2,
+  wf n m ->
+  pass_from n Consistent ig m ts = (o1, k1) ->
+  pass_from n Consistent ig m o1 = (o2, k2) ->
+  pass_from n Consistent ig m o2 = (o2, 0).
+Proof. exact consistent_two_pass_from. Qed.
+Print Assumptions C16_consistent_two_pass_from.
